@@ -105,6 +105,39 @@ def d1_cache_discipline(ctx, rm: REModel):
                      f"{CLS}._run": "the single append"}, modules=None, min_instances=5)
 
 
+NO_CHECKPOINT_GUARDS = ("self._msg_cache is None", "not self.resumable")
+
+
+def reset_skipped_only_without_checkpoint(ctx, rm: REModel, rule: str):
+    """The reset chain (_reset_checkpoint_state_coro -> _reset_checkpoint_state -> _reset_checkpoint_state_meth) performs its two
+    effects - fresh replay cache, counter snapshot of every open run - on every path, except on the true branch of a test that
+    says exactly 'no checkpoint is in effect' (cache is None).  Any weaker skip condition (empty cache, rewinding switched off, ...)
+    leaves a stale cache / stale counter snapshot behind a checkpoint."""
+    repo = rm.repo
+    for nm in ("_reset_checkpoint_state_meth", "_reset_checkpoint_state", "_reset_checkpoint_state_coro"):
+        f = rm.m(nm)
+        g = q.cfg(f, q.quiet_policy(repo))
+        if nm == "_reset_checkpoint_state_meth":
+            effects = {
+                "fresh replay cache": lambda n: n.stmt is not None and n.kind == "stmt" and isinstance(n.stmt, ast.Assign) and A.chain(n.stmt.targets[0]) == "self._msg_cache"
+                and isinstance(n.stmt.value, ast.Call) and A.call_name(n.stmt.value) == "deque",
+                "counter snapshot of every open run": lambda n: n.stmt is not None and isinstance(n.stmt, ast.For) and bool(A.method_calls(n.stmt, "reset_checkpoint_state")),
+            }
+        else:
+            effects = {"the reset": lambda n: n.stmt is not None and n.kind == "stmt" and is_reset_call(n.stmt)}
+
+        def edge_ok(u, v, label):
+            nu = g.nodes[u]
+            # leaving through the true branch of an exact 'no checkpoint' test is the one allowed way to skip
+            return not (nu.kind == "test" and label == "T" and A.norm(nu.ast) in NO_CHECKPOINT_GUARDS)
+
+        for what, pred in effects.items():
+            w = g.must_pass([g.entry], pred, exits=[g.exit], edge_ok=edge_ok)
+            ctx.ob(rule, cname(f, None, f"{what} on every path except 'no checkpoint in effect'"), w is None,
+                   "" if w is None else f"{nm} can return without {what} although a checkpoint is in effect (skip condition weaker than `self._msg_cache is None`): "
+                   "a later rewind replays a stale cache / rolls counters back to a stale snapshot", nontrivial=True, witness=w[-6:] if w else None, where=where(f, f.node))
+
+
 def d2_implicit_checkpoints(ctx, rm: REModel):
     repo = rm.repo
     for cmd, action in IMPLICIT.items():
@@ -135,6 +168,7 @@ def d2_implicit_checkpoints(ctx, rm: REModel):
     ctx.ob("C04.D2-reset-shape", cname(rs, None, "fresh empty cache"), ok1, "" if ok1 else "the checkpoint no longer starts an empty replay cache", where=where(rs, rs.node))
     ctx.ob("C04.D2-reset-shape", cname(rs, None, "every bundler snapshots its counters"), bool(loops),
            "" if loops else "the checkpoint no longer snapshots the sequence counters of every open run", where=where(rs, rs.node))
+    reset_skipped_only_without_checkpoint(ctx, rm, "C04.D2-reset-shape")
     for nm in ("_reset_checkpoint_state", "_reset_checkpoint_state_coro"):
         f = rm.m(nm)
         ok = any(is_reset_call(s) for s in A.walk_stmts(f.node.body))
